@@ -785,11 +785,9 @@ var specBig = pbt.Register(&pbt.Spec[BigCase]{
 		"oracle: model; touched keys/values + Len compared before and after every single call, whole universe of every box at the end of every step and at power-of-two and peak/2,/4,/8 sizes; " +
 		"non-trivial = some box reached >= 65 pairs",
 	Enum: func(shard, shards int, tier string, yield func(BigCase) bool) {
-		idx := 0
-		for _, n := range bigSizes(tier) {
+		for ni, n := range bigSizes(tier) {
 			for si, steps := range bigScripts(n) {
-				idx++
-				if shards > 1 && idx%shards != shard {
+				if shards > 1 && (ni+si)%shards != shard { // every shard gets every script and sizes of every magnitude
 					continue
 				}
 				if !yield(BigCase{Seed: n*31 + si, Steps: steps}) {
